@@ -215,6 +215,45 @@ theorem dedupLoop_spec (k : Bytes) (hne : k ≠ []) (hk : EQ ∉ k) (r : List By
             simp [Ne.symm hkk]
           rw [h2, hc, hfw, childGetenv_cons_other kv out k hko]
 
+theorem dedupLoop_err_true (r : List Bytes) : ∀ saw out, (dedupLoop r saw out true).2 = true := by
+  induction r with
+  | nil => intro saw out; rfl
+  | cons kv more ih =>
+    intro saw out
+    rw [dedupLoop]
+    split
+    · exact ih saw out
+    · split
+      · split <;> exact ih _ _
+      · split <;> exact ih _ _
+
+/-- A NUL byte anywhere makes os/exec report an error (the child is not started). -/
+theorem dedupLoop_nul (r : List Bytes) (h : ∃ kv ∈ r, (kv.contains 0) = true) :
+    ∀ saw out err, (dedupLoop r saw out err).2 = true := by
+  induction r with
+  | nil => obtain ⟨kv, hm, _⟩ := h; simp at hm
+  | cons kv more ih =>
+    intro saw out err
+    rw [dedupLoop]
+    by_cases hk : (kv.contains 0) = true
+    · simp only [hk, if_true]
+      exact dedupLoop_err_true more saw out
+    · have hmore : ∃ x ∈ more, (x.contains 0) = true := by
+        obtain ⟨x, hm, hx⟩ := h
+        rcases List.mem_cons.1 hm with rfl | hm
+        · exact absurd hx hk
+        · exact ⟨x, hm, hx⟩
+      simp only [hk, Bool.false_eq_true, if_false]
+      split
+      · split <;> exact ih hmore _ _ _
+      · split <;> exact ih hmore _ _ _
+
+theorem dedupEnv_nul (l : List Bytes) (h : ∃ kv ∈ l, (kv.contains 0) = true) : dedupEnv l = .error .nul := by
+  have h' : ∃ kv ∈ l.reverse, (kv.contains 0) = true := by
+    obtain ⟨kv, hm, hk⟩ := h
+    exact ⟨kv, by simpa using hm, hk⟩
+  simp [dedupEnv, dedupLoop_nul l.reverse h' [] [] false]
+
 /-- The last assignment in the list = the lookup in the map built from it. -/
 theorem lookup_eq_firstWith (k : Bytes) (r : List Bytes) :
     lookup (r.reverse.filterMap splitEq) k = (match firstWith r k with | some v => v | none => []) := by
